@@ -155,6 +155,15 @@ def affix_renamings(src, name, keywords):
     used = set(names) | set(keywords)
     out = []
     for n in names:
+        if n == n.upper() and any(c.isalpha() for c in n) and n.upper() != guard and not n.endswith("_H"):
+            # an upper-case name (macro, enum constant) spelled like a keyword, a directive word or one of the tool's
+            # own words of the same length
+            for f in [w for w in UPPER_WORDS + tool_words() if len(w) == len(n)]:
+                if f not in used and f != n:
+                    new = apply_renaming(src, {n: f})
+                    if new and new != src:
+                        out.append((new, {n: f}))
+            continue
         if n != n.lower() or len(n) < 4 or not n[0].isalpha() or n[:2] in ("g_", "s_", "t_", "u_", "e_") or n.upper() == guard:
             continue
         lt = [line_text(src, a).lstrip() for (t, (a, b)) in tw if t[0] == "IDENTIFIER" and t[3] == n]
